@@ -9,6 +9,12 @@ CLAIMED = {
          'Oracle evaluated only after a quiesce phase, per clean component whose synchronisation condition is satisfiable; stubs per evidence.assumptions'),
  'C02': ('6/C02', 'Every STATE publication of every instance, in every simulated run (faults + restart/shutdown/end_sync/restart_sequence operations), is checked against an independent copy of the documented graph, the RUNNING-Master precondition and the slave-after-Master ordering.',
          'Publications are tapped at RpcHandler.push_publication (instance attribute, no source change); known finding for supvisors_failure_strategy=SHUTDOWN listed in known_findings.json'),
+ 'C03': ('6/C03', 'Every start request, at the instant the requester pushes it, in runs where all start causes are application plans (DISTRIBUTION, restart_sequence, start/restart_application, RESTART_APPLICATION repairs): every lower positive start_sequence process of the application is done (RUNNING, expected exit, failed, timed out, host lost, or already running when the plan began), applications of a lower start_sequence are done in automatic plans, sequence 0 is never requested, nothing is requested after a required failure with ABORT/STOP.',
+         'Requester view read at the request instant (atomic with its decision); truth from the real Subprocess objects; children: prompt, BACKOFF, FATAL, early exit, exec failure, slow / ignored stop; loss of the hosting instance'),
+ 'C04': ('6/C04', 'Every start request checked against the requester view and the target real Supervisor: target RUNNING, program known and enabled there, permitted by the applicable identifiers rule, independent node load computation (running + requests of the requester still pending) within 100; converse check of every forced No resource available; no request for a running process, no duplicate request.',
+         'Loads near the cap, several instances per node, programs absent / disabled per instance, concurrent application starts, restarts of instances; one known finding (concurrent applications ignore each other\'s requested loads), one repaired defect (duplicated identifiers in the node map)'),
+ 'C14': ('6/C14', 'Placement of every start request recomputed from the requester view: CONFIG / LESS_LOADED / MOST_LOADED / LESS_LOADED_NODE / MOST_LOADED_NODE / LOCAL optimality over the independently computed eligible set (ties accepted), SINGLE_INSTANCE one target and SINGLE_NODE one machine per application plan.',
+         'Strategy optimality is only judged when the requester has no other outstanding request (loads are then unambiguous); the strategy is attributed from the operation log (explicit strategy of the last accepted start/restart_application) or the application rules'),
  'C07': ('6/C07', 'Per (observer, peer) monitor in every simulated run: a RUNNING/CHECKED peer declared FAILED/STOPPED/ISOLATED must be justified by silence (> inactivity_ticks local ticks since the last TICK delivered to the listener), a failed XML-RPC, or a restart; a silent peer must be out of the active states at the stated tick and invalidated by the next; fencing rule; lost processes unlisted and FATAL; instance state graph incl. ISOLATED final and local never ISOLATED.',
          'Accuracy is judged on deliveries observed by the simulator (sound under any delay); crash / restart (stealth) / partition (refuse, blackhole, directed) / heal / stall / slow links, inactivity_ticks 2-5, both auto_fence values'),
  'C08': ('6/C08', 'Liveness after faults stop: crash / restart / healed partitions / process failures placed in every FSM state (triggers on ELECTION, DISTRIBUTION, CONCILIATION), then >= 200 s + synchro_timeout of simulated quiet; every member of every satisfiable component must be in OPERATION (CONCILIATION with USER and a real conflict) with no job pending.',
